@@ -267,7 +267,7 @@ CHECKS = {
                       "exactly the sent envelopes intact and in order or an error, never a fabricated, duplicated or reordered one; Send succeeds iff "
                       "exactly one frame went out.",
         "level_note": "Trusted: SSA->SMT executor, z3, and that json.Encoder writes one frame per call and json.Decoder re-assembles values across chunks "
-                      "(standard library). Bounds: buffers of 3 / 5 bytes, <= 2 / 3 transient timeouts per call, <= 2 / 3 frames, <= 1 / 2 arbitrary fragments "
+                      "(standard library). Bounds: buffers of 3 / 5 bytes, <= 2 / 3 transient timeouts per call, <= 2 frames, <= 1 arbitrary fragment besides whole-buffer reads (2 fragments did not finish in 50 min and are not claimed) "
                       "per connection beyond which reads deliver what is available. A Read returning data together with an error and TLS are outside the claim.",
         "runs": [
             {"harness": "HarnessC12Write", "params": {"len": 3, "timeouts": 2}, "reach": ["c12:write-succeeded"], "tier": "quick"},
@@ -279,9 +279,9 @@ CHECKS = {
             {"harness": "HarnessC12Write", "grid": {"len": [4, 5]}, "params": {"timeouts": 3}, "reach": ["c12:write-succeeded"], "tier": "thorough"},
             {"harness": "HarnessC12Read", "params": {"len": 5, "timeouts": 3}, "reach": ["c12:read-succeeded"], "tier": "thorough"},
             {"harness": "HarnessC12Send", "params": {"sends": 3, "timeouts": 3}, "reach": ["c12:send-returned"], "tier": "thorough"},
-            {"harness": "HarnessC12Receive", "grid": {"garbage": [0, 1], "cancel": [0, 1], "kind0": [0, 1, 2, 3, 4, 5]}, "params": {"frames": 2, "timeouts": 2, "frag": 2}, "reach": ["c12:received-one"], "tier": "thorough"},
+            {"harness": "HarnessC12Receive", "grid": {"garbage": [0, 1], "cancel": [0, 1], "kind0": [0, 1, 2, 3, 4, 5]}, "params": {"frames": 2, "timeouts": 2, "frag": 1}, "reach": ["c12:received-one"], "tier": "thorough"},
         ],
-        "bounds": {"quick": {"buffer": 3, "timeouts": 2, "frames": 2, "fragments": 1}, "thorough": {"buffer": 5, "timeouts": 3, "frames": 2, "fragments": 2}},
+        "bounds": {"quick": {"buffer": 3, "timeouts": 2, "frames": 2, "fragments": 1}, "thorough": {"buffer": 5, "timeouts": 3, "frames": 2, "fragments": 1, "receive_timeouts": 2, "undecodable_bytes": True}},
         "out": ["json.Encoder/Decoder internals", "a Read that returns data and an error", "the TLS record layer"],
         "assumptions": ["net.Conn contract: Write returns err != nil when n < len(b); Read returns n >= 1 with nil error, or 0 with an error"],
     },
